@@ -643,19 +643,19 @@ func c15NegativeSeek(ctx *core.Ctx) {
 		p.Close()
 		return out
 	}
-	skipped := false
-	for i := 0; i < 20 && !skipped; i++ {
+	outcome := "no-page-skipped"
+	for i := 0; i < 20 && outcome == "no-page-skipped"; i++ {
 		as := run(parquet.AsyncPages(&c15Pages{l: l}))
-		skipped = as != "p0,seek(-1)=false,p10"
-		if skipped {
+		switch as {
+		case "p0,seek(-1)=false,p10":
+		case "p0,seek(-1)=true,p10":
+			outcome = "refused-like-the-sync-reader"
+		default:
+			outcome = "returns-nil-and-skips-the-prefetched-page"
 			ctx.Sample(map[string]any{"observation": "asyncPages.SeekToRow(-1)", "async": as, "sequential": "p0,seek(-1)=false,p10 (wrapped reader left alone) / error (FilePages)"})
 		}
 	}
-	if skipped {
-		ctx.Hist("observation_negative_seek_async", "returns-nil-and-skips-the-prefetched-page")
-	} else {
-		ctx.Hist("observation_negative_seek_async", "no-page-skipped")
-	}
+	ctx.Hist("observation_negative_seek_async", outcome)
 }
 
 // c15Session runs one recording session; false = abort the sub-check (deadlock).
